@@ -104,7 +104,15 @@ def validation_and_orientation(F, S):
         pic = ("var", wr.params[1]["n"], wr.params[1]["d"])
         en = F.enums.get("OP2Utility::ScanLineOrientation")
         bu = [e["value"] for e in en["enumerators"] if e["name"] == "BottomUp"][0] if en else None
-        good = any(f[0] == "==" and ("call", B + "::GetScanLineOrientation", pic, ()) in (f[1], f[2]) and ("const", bu) in (f[1], f[2]) for f in s2)
+        orient = F.method_value(B + "::GetScanLineOrientation", pic)
+        good = any(f[0] == "==" and orient in (f[1], f[2]) and ("const", bu) in (f[1], f[2]) for f in s2)
+        if not good and orient[0] == "cond" and orient[2][0] == "const" and orient[3][0] == "const":
+            # the orientation expression is `c ? TopDown : BottomUp`: comparing it with BottomUp is the test !c
+            from ..flow import cond_facts
+            inv_if = [x for x in wr.nodes if x["k"] == "IfStmt" and inv[0]["id"] in wr.subtree(x["then"])]
+            if inv_if:
+                ct = wr.term(inv_if[-1]["cond"])
+                good = ct in (("op", "==", orient, ("const", bu)), ("op", "==", ("const", bu), orient))
         detail = "flip guarded by orientation == BottomUp: %s" % good
     if good:
         out.append(ok("R-MUSTCALL", inst, wr.loc(inv[0]["id"]), wr.qn, "bottom-up pictures (and only those) are flipped before writing, so the file is always top-down", detail))
